@@ -288,12 +288,26 @@ Ltac kinds :=
 Ltac kinds2 :=
   repeat match goal with
   | |- context[is_party_kind (kd ?s ?k)] =>
-      pose proof (caller_party (kd s k)); destruct (is_party_kind (kd s k)) eqn:?
+      pose proof (caller_party (kd s k)); destruct (is_party_kind (kd s k))
   | H : context[is_party_kind (kd ?s ?k)] |- _ =>
-      pose proof (caller_party (kd s k)); destruct (is_party_kind (kd s k)) eqn:?
-  | |- context[is_caller_kind (kd ?s ?k)] => destruct (is_caller_kind (kd s k)) eqn:?
-  | H : context[is_caller_kind (kd ?s ?k)] |- _ => destruct (is_caller_kind (kd s k)) eqn:?
+      pose proof (caller_party (kd s k)); destruct (is_party_kind (kd s k))
+  | |- context[is_caller_kind (kd ?s ?k)] => destruct (is_caller_kind (kd s k))
+  | H : context[is_caller_kind (kd ?s ?k)] |- _ => destruct (is_caller_kind (kd s k))
   end; cbn [b2n word_eqb] in *; case_eqb.
+
+Ltac rew_bools :=
+  repeat match goal with
+  | H : ?x = true |- _ => lazymatch x with true => fail | false => fail | _ => rewrite H in * end
+  | H : ?x = false |- _ => lazymatch x with true => fail | false => fail | _ => rewrite H in * end
+  end.
+
+Ltac kill_ifs_all :=
+  repeat match goal with
+  | |- context[if ?c then _ else _] => destruct c eqn:?
+  | |- context[match cb ?s ?k with _ => _ end] => destruct (cb s k) eqn:?
+  | H : context[if ?c then _ else _] |- _ => destruct c eqn:?
+  | H : context[match cb ?s ?k with _ => _ end] |- _ => destruct (cb s k) eqn:?
+  end.
 
 Ltac case_weqb :=
   repeat match goal with
@@ -314,13 +328,18 @@ Proof.
        unfold pre, inw, ptc, comp, party, pend, word_of, word_ok in *; norm;
        pose_pend Hlt; unfold upd in *; rewrite ?Hst in *.
   all: try clear Heqpn.
-  Time all: case_eqb; rewrite ?Hst in *; simp_cnt.
+  all: pose proof (caller_party (kd s k0)) as Hcp;
+       destruct (is_caller_kind (kd s k0)) eqn:Ecq; destruct (is_party_kind (kd s k0)) eqn:Epq;
+       try (discriminate (Hcp eq_refl)); clear Hcp.
   Time all: try (destruct (w s) eqn:Ew); cbn [word_eqb] in *.
-  Time all: kinds.
   Time all: case_eqb; rewrite ?Hst in *; simp_cnt.
+  Time all: try (match goal with Hd : decide (kd ?s ?t) _ = _ |- _ =>
+                   destruct (kd s t) eqn:Hk; cbn [decide] in Hd; try discriminate Hd end).
+  Time all: kinds; try discriminate; try congruence.
   Time all: try lia.
-  Time all: try discriminate.
-  Time all: kinds2.
-  Time all: try lia.
+  Time all: case_eqb; kinds; try discriminate; try congruence; try lia.
+  Time all: rew_bools; cbn [b2n] in *; try lia.
+  Time all: kill_ifs_all; simp_cnt; try lia.
+  Time all: cbn [word_eqb] in *; case_eqb; kinds; rew_bools; try discriminate; try congruence; try lia.
   Show.
 Abort.
